@@ -535,3 +535,70 @@ row('CODE.POSITION', ['C08'], fired='(S0.code.len() >= 2)', pushes=[('int', None
 row('CODE.PRINT', ['C11'], fired='(S0.code.len() >= 1)', pushes=[('name', None)])
 row('CODE.SIZE', ['C08'], fired='(S0.code.len() >= 1)', pushes=[('int', None)])
 row('CODE.SUBST', ['C08'], takes=[('code', 3)], pushes=[('code', None)])
+
+# ------------------------------------------------------------------ C18: GRAPH instructions -- operands, footprint, snapshots
+def graph_top_only():
+    """the graph stack keeps its depth; only the newest graph may change (older snapshots are untouched)"""
+    return buf_same('graph') + [
+        ('fired.graph.snapshots', 'S1.graph.n() == S0.graph.n() && (forall|i: int| 0 <= i < S0.graph.n() - 1 ==> S1.graph.live()[i] == S0.graph.live()[i])'),
+        ('{C18,C10}unfired.graph', 'S0.graph.n() == 0 ==> S1.graph.live() =~= S0.graph.live()')]
+
+
+def kept(stack, maxpop, maxpush):
+    return ('operands.%s' % stack, 'below_kept(S0.%s, S1.%s, %d, %d)' % (stack, stack, maxpop, maxpush))
+
+
+def untouched_without_graph(stacks):
+    return [('{C18,C10}unfired.nograph.%s' % s, 'S0.graph.n() == 0 ==> S1.%s == S0.%s' % (s, s)) for s in stacks]
+
+
+row('GRAPH.ADD', ['C18'], touches=['graph'], clauses=buf_same('graph') + [
+    ('fired.graph', 'S0.graph.n() < S0.graph.cap() ==> S1.graph.n() == S0.graph.n() + 1 && S1.graph.live().drop_last() =~= S0.graph.live()'),
+    ('fired.graph.full', 'S0.graph.n() == S0.graph.cap() ==> S1.graph.live() =~= S0.graph.live()')])
+row('GRAPH.DUP', ['C18'], touches=['graph'], clauses=buf_same('graph') + [
+    ('fired.graph', '(0 < S0.graph.n() < S0.graph.cap()) ==> S1.graph.live() =~= S0.graph.live().push(S0.graph.live().last())'),
+    ('fired.graph.full', '!(0 < S0.graph.n() < S0.graph.cap()) ==> S1.graph.live() =~= S0.graph.live()')])
+row('GRAPH.STACKDEPTH', ['C18'], pushes=[('int', 'S0.graph.n() as i32')])
+row('GRAPH.NODE*ADD', ['C18'], touches=['graph', 'int'], clauses=graph_top_only() + [kept('int', 1, 1)] + untouched_without_graph(['int']))
+row('GRAPH.NODE*STATESWITCH', ['C18'], touches=['graph', 'int', 'intvec', 'boolvec'],
+    clauses=graph_top_only() + [kept('int', 2, 0), kept('intvec', 1, 0), kept('boolvec', 1, 0)] + untouched_without_graph(['int', 'intvec', 'boolvec']))
+row('GRAPH.NODES', ['C18'], touches=['intvec'], clauses=[kept('intvec', 1, 1)] + untouched_without_graph(['intvec']))
+row('GRAPH.NODES*HISTORY', ['C18'], touches=['int', 'intvec'], clauses=[kept('int', 1, 0), kept('intvec', 1, 1),
+    ('{C18,C10}unfired.intvec', 'S0.int.len() == 0 ==> S1.intvec == S0.intvec')])
+row('GRAPH.NODE*GETSTATE', ['C18'], touches=['graph', 'int'], clauses=graph_top_only() + [kept('int', 1, 1),
+    ('fired.graph.readonly', 'S1.graph.live() =~= S0.graph.live()')] + untouched_without_graph(['int']))
+row('GRAPH.NODE*HISTORY', ['C18'], touches=['graph', 'int'], clauses=buf_same('graph') + [kept('int', 2, 1),
+    ('fired.graph.readonly', 'S1.graph.live() =~= S0.graph.live()')])
+row('GRAPH.PRINT', ['C18'], touches=['name'], clauses=[kept('name', 0, 1)] + untouched_without_graph(['name']))
+row('GRAPH.PRINT*DIFF', ['C18'], touches=['name'], clauses=[kept('name', 0, 1), ('{C18,C10}unfired.name', 'S0.graph.n() < 2 ==> S1.name == S0.name')])
+row('GRAPH.NODE*SETSTATE', ['C18'], touches=['graph', 'int'], clauses=graph_top_only() + [kept('int', 2, 0)] + untouched_without_graph(['int']))
+row('GRAPH.EDGE*ADD', ['C18'], touches=['graph', 'int', 'float'], clauses=graph_top_only() + [kept('int', 2, 0), kept('float', 1, 0)] + untouched_without_graph(['int', 'float']))
+row('GRAPH.EDGE*GETWEIGHT', ['C18'], touches=['graph', 'int', 'float'], clauses=graph_top_only() + [kept('int', 2, 0), kept('float', 0, 1),
+    ('fired.graph.readonly', 'S1.graph.live() =~= S0.graph.live()')] + untouched_without_graph(['int', 'float']))
+row('GRAPH.EDGE*SETWEIGHT', ['C18'], touches=['graph', 'int', 'float'], clauses=graph_top_only() + [kept('int', 2, 0), kept('float', 1, 0)] + untouched_without_graph(['int', 'float']))
+for nm in ['GRAPH.NODE*NEIGHBORS', 'GRAPH.NODE*PREDECESSORS', 'GRAPH.NODE*SUCCESSORS']:
+    row(nm, ['C18'], touches=['int', 'intvec'], clauses=[kept('int', 1, 0), kept('intvec', 1, 1)] + untouched_without_graph(['int', 'intvec']))
+FN_OVERLAYS['graph::graph_node_state_switch'] = dict(proofs={'body_start': '''        proof {
+            if push_state.int_vector_stack@.len() >= 1 { assert(push_state.int_vector_stack@[push_state.int_vector_stack@.len() - 1].values@.len() < 0x7fff_ffff); }
+            if push_state.bool_vector_stack@.len() >= 1 { assert(push_state.bool_vector_stack@[push_state.bool_vector_stack@.len() - 1].values@.len() < 0x7fff_ffff); }
+        }
+'''})
+
+# ------------------------------------------------------------------ C13 / C12: RAND instructions (values: relative to the RNG contract)
+row('BOOLEAN.RAND', ['C13'], pushes=[('bool', None)])
+row('INTEGER.RAND', ['C13'], fired='(S0.config.min_random_integer < S0.config.max_random_integer)',
+    pushes=[('int', None)], clauses=[('fired.value.int.0', '(S0.config.min_random_integer < S0.config.max_random_integer) ==> '
+                                      'S0.config.min_random_integer <= top(S1.int, 0) < S0.config.max_random_integer')])
+row('FLOAT.RAND', ['C13'], fired='f32_lt(S0.config.min_random_float, S0.config.max_random_float)', pushes=[('float', None)],
+    clauses=[('fired.value.float.0', 'f32_lt(S0.config.min_random_float, S0.config.max_random_float) ==> '
+              'f32_le(S0.config.min_random_float, top(S1.float, 0)) && f32_lt(top(S1.float, 0), S0.config.max_random_float)')])
+row('NAME.RAND', ['C13'], pushes=[('name', None)])
+row('NAME.RANDBOUNDNAME', ['C13'], pushes=[('name', None)],
+    clauses=[('fired.value.name.0', 'S0.bindings.dom().len() > 0 ==> S0.bindings.contains_key(top(S1.name, 0))')])
+row('CODE.RAND', ['C12'], takes=[('int', 1)], touches=['code'], clauses=[kept('code', 0, 1), ('{C12,C10}unfired.code', 'S0.int.len() == 0 ==> S1.code == S0.code')])
+row('BOOLVECTOR.RAND', ['C13'], takes=[('int', 1), ('float', 1)], touches=['boolvec'], clauses=[kept('boolvec', 0, 1),
+    ('{C13,C10}unfired.boolvec', '!(S0.int.len() >= 1 && S0.float.len() >= 1) ==> S1.boolvec == S0.boolvec')])
+row('INTVECTOR.RAND', ['C13'], takes=[('int', 3)], touches=['intvec'], clauses=[kept('intvec', 0, 1),
+    ('{C13,C10}unfired.intvec', '!(S0.int.len() >= 3) ==> S1.intvec == S0.intvec')])
+row('FLOATVECTOR.RAND', ['C13'], takes=[('int', 1), ('float', 2)], touches=['floatvec'], clauses=[kept('floatvec', 0, 1),
+    ('{C13,C10}unfired.floatvec', '!(S0.int.len() >= 1 && S0.float.len() >= 2) ==> S1.floatvec == S0.floatvec')])
